@@ -788,6 +788,13 @@ func (g *apiGen) scalar() interface{} {
 }
 
 func (g *apiGen) fieldVal() interface{} {
+	if (g.full || g.fullU) && g.r.chance(1, 6) {
+		// arrays of embedded documents / embedded documents (targets of "a.0.q", "a.$[].q", "c.x")
+		if g.r.chance(1, 2) {
+			return bson.A{bson.D{{Key: "q", Value: g.scalar()}}, bson.D{{Key: "q", Value: g.scalar()}, {Key: "r", Value: bson.A{g.scalar()}}}}
+		}
+		return bson.D{{Key: "x", Value: g.scalar()}, {Key: "q", Value: bson.A{g.scalar(), g.scalar()}}}
+	}
 	if g.r.chance(1, 5) {
 		n := g.r.intn(3)
 		a := bson.A{}
@@ -857,7 +864,7 @@ func (g *apiGen) fullFilter(depth int) bson.D {
 
 func (g *apiGen) fullUpdate() bson.D {
 	r := g.r
-	f := pick(r, []string{"a", "b", "c", "_id", "d.e", "a.0", "c.x"})
+	f := pick(r, []string{"a", "b", "c", "_id", "d.e", "a.0", "c.x", "a.0.q", "a.1.r.0", "b.q.1", "a.$[].q", "c.q"})
 	var v interface{} = g.scalar()
 	if f == "_id" {
 		v = g.id()
